@@ -8,7 +8,7 @@ PROOF_MODULES = ["GrpcProofs.Properties.C51"]
 THEOREMS = ["GrpcProofs.C51." + t for t in (
     "selected_cluster_in_config_until_commit", "commit_at_most_once", "refcount_is_selector_plus_inflight",
     "selected_cluster_in_xdsconfig_until_commit_counterexample", "witness_facts", "stale_snapshot_counterexample",
-    "dropped_after_last_reference_counterexample", "dropped_after_last_reference_partial")]
+    "dropped_after_last_reference_counterexample", "dropped_after_last_reference_partial", "installed_selector_is_current")]
 DESIGN_REF = "DESIGN.md section 8, C51"
 TECHNIQUE = ("Lean 4 model of the resolver's cluster reference counting and of the dependency manager's cluster subscriptions "
              "(ops: route update at the dependency manager, delivery of a queued Update to the resolver, SelectConfig, OnCommitted), "
@@ -24,17 +24,20 @@ LEVEL_TEXT = ("Machine-checked proof, for every interleaving of route updates, u
 LEVEL_NOTE = ("Trusted: Lean kernel; the model's reading of xdsdepmgr (static/dynamic reference counts, one Update per change, all "
               "CDS/EDS resources available at once); sync.OnceFunc; the callback serializer is FIFO. 'Its load balancer stays alive' is "
               "read as: the cluster is a child of the service config AND present in the XDSConfig attached to the same resolver state "
-              "(the cds balancer of that child needs both). Interceptor lifetime (grpcsync.RefCounted route clusters) and cluster "
-              "specifier plugins are not modelled. SelectConfig is only called on the config selector of the last state given to the "
+              "(the cds balancer of that child needs both). Cluster specifier plugins are modelled separately "
+              "(lean/GrpcModel/Model/PluginRefs.lean, run in lockstep by the driver): proved for them is that the config selector given "
+              "to the channel is always the current one; their reference counts and presence in the service config are diffed and "
+              "monitored, not proved. Interceptor lifetime (grpcsync.RefCounted route clusters) is not modelled. SelectConfig is only called on the config selector of the last state given to the "
               "channel (the channel swaps selectors under SafeConfigSelector before the old one is stopped). The check reports the first "
               "violation of a case: a known finding early in a case can hide a different violation later in the same case (cases are short).")
-GAP = "interceptors, cluster specifier plugins, resource errors, real RPC streams (OnCommitted is called directly)"
+GAP = "interceptors, resource errors, real RPC streams (OnCommitted is called directly); plugin routes are not combined with blocked-serializer schedules"
 ASSUMPTIONS = ["callback serializer is FIFO", "xDS resources for every named cluster are available (fake client answers every watch)",
                "SelectConfig is not called on a stopped config selector"]
 RULE = ("random op sequences over clusters 1..3: rds with random route lists (random subsets incl. empty; in ~40% of them a cluster is "
         "named by more than one route entry), pause/next placing blocking callbacks in the "
         "resolver's serializer, select with fresh ids on any cluster, commit of any id (repeated commits included); directed scenarios: "
-        "removal with one and several in-flight RPCs, a cluster named by several route entries (two routes, twice in one weighted-cluster "
+        "cluster-specifier-plugin routes (a third of the random cases; late commit on a replaced plugin, plugin re-added, plugin and cluster "
+        "routes together), removal with one and several in-flight RPCs, a cluster named by several route entries (two routes, twice in one weighted-cluster "
         "route) then removed with and without an RPC in flight, re-adding a cluster before/after the last commit, commit while an update is "
         "queued, flapping routes with queued updates. Every case ends by releasing all blocking callbacks and committing everything. "
         "non-trivial = at least one successful select and one route change after it; distinct = distinct op list")
@@ -57,9 +60,13 @@ def directed():
     yield ["rds 1,1", "rds 2", "rds 2,3"], "shared-by-two-routes-unused"
     yield ["rds 1+1,2", "select 1 1", "select 2 2", "rds 3", "commit 2", "commit 1"], "twice-in-weighted-clusters"
     yield ["rds 1,2,1,1+1", "select 1 1", "rds 2,2", "select 2 2", "rds 1", "commit 1", "commit 2", "rds -"], "many-entries"
+    # routes whose action is a cluster specifier plugin: no subscription; the last release regenerates the service config
+    yield ["rds p1", "select 1 p1", "rds p2", "select 2 p2", "commit 1", "select 3 p2", "select 4 p1", "commit 2", "commit 3", "rds -"], "plugin-late-commit"
+    yield ["rds p1,1", "select 1 p1", "select 2 1", "rds 2", "commit 1", "select 3 2", "commit 2", "commit 3"], "plugin-and-cluster"
+    yield ["rds p1,p1,p2", "select 1 p1", "rds p2", "rds p1", "commit 1", "commit 1", "select 2 p1", "rds -", "commit 2"], "plugin-readd"
 
 
-def routes(rng, ncl, least):
+def routes(rng, ncl, least, npl=0):
     """a route list over clusters 1..ncl: a random subset, and in ~40% of the lists some cluster is named by more than one
     route entry (repeated route, or twice inside one weighted-cluster route)"""
     sub = sorted(rng.sample(range(1, ncl + 1), rng.randrange(least, ncl + 1)))
@@ -72,6 +79,11 @@ def routes(rng, ncl, least):
             else:
                 i = items.index(str(c)) if str(c) in items else 0
                 items[i] = "%d+%d" % (c, c)
+    for p in range(1, npl + 1):
+        if rng.random() < 0.5:
+            items.insert(rng.randrange(0, len(items) + 1), "p%d" % p)
+            if rng.random() < 0.2:
+                items.append("p%d" % p)
     return ",".join(items) or "-"
 
 
@@ -86,11 +98,16 @@ def gen(rng, tier):
         ids = []
         blockers = 0
         ncl = rng.randrange(2, 4)
-        ops.append("rds " + routes(rng, ncl, 1))
+        # a third of the cases use cluster-specifier-plugin routes as well; those cases do not block the serializer
+        # (the order of a regenerate callback and of an Update triggered by resources arriving asynchronously is not fixed)
+        npl = rng.randrange(1, 3) if rng.random() < 0.34 else 0
+        ops.append("rds " + routes(rng, ncl, 1, npl))
         while len(ops) < ln:
             k = rng.random()
             if k < 0.28:
-                ops.append("rds " + routes(rng, ncl, 0))
+                ops.append("rds " + routes(rng, ncl, 0, npl))
+            elif npl and k < 0.55:
+                continue
             elif k < 0.40 and blockers < 3:
                 ops.append("pause")
                 blockers += 1
@@ -98,7 +115,10 @@ def gen(rng, tier):
                 ops.append("next")
                 blockers -= 1
             elif k < 0.80:
-                ops.append("select %d %d" % (nid, rng.randrange(1, ncl + 1)))
+                tgt = str(rng.randrange(1, ncl + 1))
+                if npl and rng.random() < 0.5:
+                    tgt = "p%d" % rng.randrange(1, npl + 1)
+                ops.append("select %d %s" % (nid, tgt))
                 ids.append(nid)
                 nid += 1
             elif ids:
